@@ -117,76 +117,7 @@ pub struct Cursor<'a> {
     pub err: Option<Error>,
     pub m: Ghost<CM>,
 }
-impl<'a> Cursor<'a> {
-    #[verifier::external_body]
-    pub fn index(&self) -> usize { unimplemented!() }
-    #[verifier::external_body]
-    pub fn is_pending(&self) -> (r: bool) ensures r == self.m@.pending { unimplemented!() }
-    /// next char: the pushed-back one if any, else the next one from the iterator
-    #[verifier::external_body]
-    pub fn bump(&mut self) -> (r: Option<char>)
-        requires old(self).m@.wf()
-        ensures
-            final(self).source == old(self).source, final(self).err == old(self).err,
-            final(self).m@.chars == old(self).m@.chars, final(self).m@.start == old(self).m@.start, !final(self).m@.pending,
-            final(self).m@.index_ok == old(self).m@.index_ok,
-            old(self).m@.pending ==> final(self).offset == old(self).offset,
-            // `self.offset = pos`: the byte position of the char just read
-            (!old(self).m@.pending && old(self).m@.read < old(self).m@.chars.len()) ==> final(self).offset == byte_off(old(self).m@.chars, old(self).m@.read as int),
-            old(self).m@.pending ==> r == Some(old(self).m@.chars[old(self).m@.read - 1]) && final(self).m@.read == old(self).m@.read,
-            (!old(self).m@.pending && old(self).m@.read < old(self).m@.chars.len()) ==> r == Some(old(self).m@.chars[old(self).m@.read as int]) && final(self).m@.read == old(self).m@.read + 1,
-            (!old(self).m@.pending && old(self).m@.read >= old(self).m@.chars.len()) ==> r is None && final(self).m@.read == old(self).m@.read,
-    { unimplemented!() }
-    /// consume the next char if it is `c`; otherwise push it back (panics if a char is already pushed back)
-    #[verifier::external_body]
-    pub fn eatc(&mut self, c: char) -> (r: bool)
-        requires old(self).m@.wf(), !old(self).m@.pending
-        ensures
-            final(self).source == old(self).source, final(self).err == old(self).err,
-            final(self).m@.chars == old(self).m@.chars, final(self).m@.start == old(self).m@.start, final(self).m@.index_ok == old(self).m@.index_ok,
-            old(self).m@.read < old(self).m@.chars.len() ==> final(self).m@.read == old(self).m@.read + 1
-                && r == (old(self).m@.chars[old(self).m@.read as int] == c) && final(self).m@.pending == !r,
-            old(self).m@.read >= old(self).m@.chars.len() ==> !r && final(self).m@.read == old(self).m@.read && !final(self).m@.pending,
-    { unimplemented!() }
-    /// text of the token up to and including the char read last; peeks one more char and pushes it back
-    #[verifier::external_body]
-    pub fn current_str(&mut self) -> (r: &'a str)
-        requires old(self).m@.wf(), old(self).m@.index_ok,
-            // at the end of the input the body computes `self.source.len() - 1`: the source must not be empty
-            old(self).m@.read >= old(self).m@.chars.len() ==> old(self).m@.chars.len() >= 1
-        ensures
-            final(self).source == old(self).source, final(self).err == old(self).err, final(self).m@.chars == old(self).m@.chars,
-            r@ =~= old(self).m@.chars.subrange(old(self).m@.start as int, old(self).m@.read as int),
-            final(self).m@.start == old(self).m@.read,
-            old(self).m@.read < old(self).m@.chars.len() ==> final(self).m@.read == old(self).m@.read + 1 && final(self).m@.pending && final(self).m@.index_ok,
-            old(self).m@.read >= old(self).m@.chars.len() ==> final(self).m@.read == old(self).m@.read && !final(self).m@.pending && !final(self).m@.index_ok,
-    { unimplemented!() }
-    /// text of the token up to but excluding the char read last, which is pushed back
-    #[verifier::external_body]
-    pub fn prev_str(&mut self) -> (r: &'a str)
-        requires old(self).m@.wf(), old(self).m@.index_ok, old(self).m@.read >= 1, old(self).m@.start <= old(self).m@.read - 1
-        ensures
-            final(self).source == old(self).source, final(self).err == old(self).err, final(self).m@.chars == old(self).m@.chars,
-            r@ =~= old(self).m@.chars.subrange(old(self).m@.start as int, old(self).m@.read - 1),
-            final(self).m@.start == old(self).m@.read - 1, final(self).m@.read == old(self).m@.read, final(self).m@.pending, final(self).m@.index_ok,
-    { unimplemented!() }
-    /// the rest of the source from the token start (`source.len() - 1` underflows on an empty source)
-    #[verifier::external_body]
-    pub fn drain(&mut self) -> (r: &'a str)
-        requires old(self).m@.wf(), old(self).m@.index_ok, old(self).m@.chars.len() >= 1, old(self).m@.read == old(self).m@.chars.len()
-        ensures
-            final(self).source == old(self).source, final(self).err == old(self).err, final(self).m@.chars == old(self).m@.chars,
-            r@ =~= old(self).m@.chars.subrange(old(self).m@.start as int, old(self).m@.chars.len() as int),
-            final(self).m@.start == old(self).m@.chars.len(), final(self).m@.read == old(self).m@.read, !final(self).m@.pending, !final(self).m@.index_ok,
-    { unimplemented!() }
-    pub fn err(&mut self) -> (r: Option<Error>) ensures r == old(self).err, *final(self) == *old(self) {
-        match &self.err { Some(e) => Some(e.clone()), None => None }
-    }
-    pub fn add_err(&mut self, err: Error)
-        ensures final(self).err == Some(err), final(self).m == old(self).m, final(self).source == old(self).source, final(self).offset == old(self).offset
-    { self.err = Some(err) }
-}
-
+@@CURSOR_PRIMITIVES@@
 
 // ---------------- the lexical grammar (October 2021, section 2.1) for the regular tokens ----------------
 pub open spec fn eq1(s: Seq<char>, a: char) -> bool { s.len() == 1 && s[0] == a }
@@ -466,6 +397,72 @@ impl<'a> Cursor<'a> {
 pub open spec fn item_text<'a>(r: Result<Token<'a>, Error>) -> Seq<char> { match r { Ok(t) => t.data@, Err(e) => e.data@ } }
 '''
 
+
+
+# ---- contracts of Cursor's primitives over the ghost model CM: assumed by this unit (generated shim below), PROVED for the extracted
+# ---- bodies of lexer/cursor.rs in unit `cursor` (same clause lists)
+O, F_ = "old(self).m@", "final(self).m@"
+FRAME = "final(self).source == old(self).source, final(self).err == old(self).err, final(self).m@.chars == old(self).m@.chars"
+CURSOR_PRIMS = {
+    "is_pending": dict(sig="pub fn is_pending(&self) -> (r: bool)", doc="", requires=[], ensures=["r == self.m@.pending"]),
+    "bump": dict(sig="pub fn bump(&mut self) -> (r: Option<char>)", doc="next char: the pushed-back one if any, else the next one from the iterator",
+        requires=["old(self).m@.wf()"],
+        ensures=["final(self).source == old(self).source, final(self).err == old(self).err",
+                 "final(self).m@.chars == old(self).m@.chars, final(self).m@.start == old(self).m@.start, !final(self).m@.pending",
+                 "final(self).m@.index_ok == old(self).m@.index_ok",
+                 "old(self).m@.pending ==> final(self).offset == old(self).offset",
+                 "(!old(self).m@.pending && old(self).m@.read < old(self).m@.chars.len()) ==> final(self).offset == byte_off(old(self).m@.chars, old(self).m@.read as int)",
+                 "old(self).m@.pending ==> r == Some(old(self).m@.chars[old(self).m@.read - 1]) && final(self).m@.read == old(self).m@.read",
+                 "(!old(self).m@.pending && old(self).m@.read < old(self).m@.chars.len()) ==> r == Some(old(self).m@.chars[old(self).m@.read as int]) && final(self).m@.read == old(self).m@.read + 1",
+                 "(!old(self).m@.pending && old(self).m@.read >= old(self).m@.chars.len()) ==> r is None && final(self).m@.read == old(self).m@.read"]),
+    "eatc": dict(sig="pub fn eatc(&mut self, c: char) -> (r: bool)", doc="consume the next char if it is `c`; otherwise push it back (panics if a char is already pushed back)",
+        requires=["old(self).m@.wf(), !old(self).m@.pending"],
+        ensures=["final(self).source == old(self).source, final(self).err == old(self).err",
+                 "final(self).m@.chars == old(self).m@.chars, final(self).m@.start == old(self).m@.start, final(self).m@.index_ok == old(self).m@.index_ok",
+                 "old(self).m@.read < old(self).m@.chars.len() ==> final(self).m@.read == old(self).m@.read + 1 && r == (old(self).m@.chars[old(self).m@.read as int] == c) && final(self).m@.pending == !r",
+                 "old(self).m@.read >= old(self).m@.chars.len() ==> !r && final(self).m@.read == old(self).m@.read && !final(self).m@.pending"]),
+    "current_str": dict(sig="pub fn current_str(&mut self) -> (r: &'a str)", doc="text of the token up to and including the char read last; peeks one more char and pushes it back",
+        requires=["old(self).m@.wf(), old(self).m@.index_ok",
+                  "old(self).m@.read >= old(self).m@.chars.len() ==> old(self).m@.chars.len() >= 1   /* at the end of the input the body computes `self.source.len() - 1` */"],
+        ensures=[FRAME,
+                 "r@ =~= old(self).m@.chars.subrange(old(self).m@.start as int, old(self).m@.read as int)",
+                 "final(self).m@.start == old(self).m@.read",
+                 "old(self).m@.read < old(self).m@.chars.len() ==> final(self).m@.read == old(self).m@.read + 1 && final(self).m@.pending && final(self).m@.index_ok",
+                 "old(self).m@.read >= old(self).m@.chars.len() ==> final(self).m@.read == old(self).m@.read && !final(self).m@.pending && !final(self).m@.index_ok"]),
+    "prev_str": dict(sig="pub fn prev_str(&mut self) -> (r: &'a str)", doc="text of the token up to but excluding the char read last, which is pushed back",
+        requires=["old(self).m@.wf(), old(self).m@.index_ok, old(self).m@.read >= 1, old(self).m@.start <= old(self).m@.read - 1"],
+        ensures=[FRAME,
+                 "r@ =~= old(self).m@.chars.subrange(old(self).m@.start as int, old(self).m@.read - 1)",
+                 "final(self).m@.start == old(self).m@.read - 1, final(self).m@.read == old(self).m@.read, final(self).m@.pending, final(self).m@.index_ok"]),
+    "drain": dict(sig="pub fn drain(&mut self) -> (r: &'a str)", doc="the rest of the source from the token start (`source.len() - 1` underflows on an empty source)",
+        requires=["old(self).m@.wf(), old(self).m@.index_ok, old(self).m@.chars.len() >= 1, old(self).m@.read == old(self).m@.chars.len()"],
+        ensures=[FRAME,
+                 "r@ =~= old(self).m@.chars.subrange(old(self).m@.start as int, old(self).m@.chars.len() as int)",
+                 "final(self).m@.start == old(self).m@.chars.len(), final(self).m@.read == old(self).m@.read, !final(self).m@.pending, !final(self).m@.index_ok"]),
+    "add_err": dict(sig="pub fn add_err(&mut self, err: Error)", doc="", requires=[],
+        ensures=["final(self).err == Some(err), final(self).m == old(self).m, final(self).source == old(self).source, final(self).offset == old(self).offset"]),
+}
+
+
+def cursor_shim_impl():
+    out = ["impl<'a> Cursor<'a> {", "    #[verifier::external_body]", "    pub fn index(&self) -> usize { unimplemented!() }"]
+    for name, c in CURSOR_PRIMS.items():
+        if c["doc"]:
+            out.append("    /// " + c["doc"])
+        out.append("    #[verifier::external_body]")
+        out.append("    " + c["sig"])
+        if c["requires"]:
+            out.append("        requires " + ",\n            ".join(c["requires"]) + ",")
+        out.append("        ensures\n            " + ",\n            ".join(c["ensures"]) + ",")
+        out.append("    { unimplemented!() }")
+    out.append("    pub fn err(&mut self) -> (r: Option<Error>) ensures r == old(self).err, *final(self) == *old(self) {")
+    out.append("        match &self.err { Some(e) => Some(e.clone()), None => None }")
+    out.append("    }")
+    out.append("}")
+    return "\n".join(out) + "\n"
+
+
+PRELUDE = PRELUDE.replace("@@CURSOR_PRIMITIVES@@", cursor_shim_impl())
 
 KIND_POST = ("ensures", "token_has_the_right_kind_and_is_maximal", "r is Ok ==> token_ok(r->Ok_0.kind, r->Ok_0.data@, next_char(&*final(self)))", ["C03"])
 ADV_REQ = [("requires", "idle", "old(self).idle()"),
